@@ -35,7 +35,60 @@ func c05wGen(rt *rapid.T) wProg {
 			{K: "sub", S: 0, T: "g0"}, {K: "pub", S: 0, T: "g0"}, {K: "set", S: s, T: "g0", A: "mode", B: "JRWP"}, {K: "pub", S: 0, T: "g0"}}
 		p.Ops = append(p.Ops[:at], append(ins, p.Ops[at:]...)...)
 	}
+	// an administrator whose grant was lowered below his unchanged request asks for the same mode again:
+	// the self-grant raises 'given' only
+	if gPct(rt, 30) {
+		adm := gInt(rt, 1, 2, "adm")
+		hs := -1
+		for k := 1; k < len(p.Sess); k++ {
+			if p.Sess[k] == adm {
+				hs = k
+				break
+			}
+		}
+		if hs > 0 {
+			at := gInt(rt, 1, len(p.Ops), "at3")
+			ins := []wOp{{K: "sub", S: 0, T: "g0"}, {K: "set", S: 0, T: "g0", A: "given", U: adm, B: "JRWPAS"}, {K: "sub", S: hs, T: "g0", A: "JRWPAS"},
+				{K: "set", S: 0, T: "g0", A: "given", U: adm, B: gPick(rt, []string{"JRWPA", "JRWA"}, "lowered")}, {K: "set", S: hs, T: "g0", A: "mode", B: "JRWPAS"}}
+			p.Ops = append(p.Ops[:at], append(ins, p.Ops[at:]...)...)
+		}
+	}
+	// default access changed one side at a time: the side left out (or sent empty) stays as it was
+	if gPct(rt, 45) {
+		at := gInt(rt, 1, len(p.Ops), "at2")
+		var ins []wOp
+		for i, n := 0, gInt(rt, 1, 3, "ndef"); i < n; i++ {
+			s := gInt(rt, 0, len(p.Sess)-1, "defs")
+			t := gPick(rt, []string{"me", "me", "g0"}, "deft")
+			if t == "g0" {
+				s = 0
+			}
+			ins = append(ins, wOp{K: "sub", S: s, T: t}, wOp{K: "set", S: s, T: t, A: "defacs", B: gPick(rt, []string{"JRWPA", "JRWPAS", "JRW", "N", "JRWPS", "jrwp", "JXQ"}, "defval"),
+				H: map[string]any{"side": gPick(rt, []string{"auth", "anon", "auth+empty", "anon+empty"}, "side")}},
+				wOp{K: "get", S: s, T: t, A: "desc"})
+		}
+		p.Ops = append(p.Ops[:at], append(ins, p.Ops[at:]...)...)
+	}
 	return p
+}
+
+// c05wDefacs returns the stored default access of a 'me' (users row) or group (topics row) topic.
+func c05wDefacs(st *mem.State, route string) (types.DefaultAccess, bool) {
+	if strings.HasPrefix(route, "usr") {
+		uid := types.ParseUserId(route)
+		for _, u := range st.Users {
+			if u.ID == uid {
+				return u.Access, true
+			}
+		}
+		return types.DefaultAccess{}, false
+	}
+	for _, tr := range st.Topics {
+		if tr.Name == route {
+			return tr.Access, true
+		}
+	}
+	return types.DefaultAccess{}, false
 }
 
 type c05wObs struct {
@@ -77,7 +130,67 @@ func (o *c05wObs) After(w *wWorld, st *wStep) *kit.Viol {
 		return nil
 	}
 	post := mem.A.Snapshot()
+	if side, _ := st.Op.H["side"].(string); st.Op.K == "set" && st.Op.A == "defacs" && side != "" && !st.Skipped {
+		before, ok1 := c05wDefacs(o.pre, st.Route)
+		after, ok2 := c05wDefacs(post, st.Route)
+		if ok1 && ok2 {
+			named, other, otherWas, otherIs := "auth", "anon", before.Anon, after.Anon
+			if strings.HasPrefix(side, "anon") {
+				named, other, otherWas, otherIs = "anon", "auth", before.Auth, after.Auth
+			}
+			if otherWas != otherIs {
+				return kit.V("defacs-empty-side-changed", "%s (answered %d) names only the %s default: the %s default of %s changed from %v to %v although an empty string means no change", st.Req, st.code(), named, other, st.Route, otherWas, otherIs)
+			}
+			if !st.ok() && before != after {
+				return kit.V("refused-defacs-changed", "%s was answered %d and changed the default access of %s from %v/%v to %v/%v", st.Req, st.code(), st.Route, before.Auth, before.Anon, after.Auth, after.Anon)
+			}
+			o.features["defacs-one-side"] = true
+		}
+	}
 	pre, now := subRows(o.pre), subRows(post)
+	// A user's own accepted change of an existing subscription is announced to the user's other
+	// sessions which sit on 'me' only (Topic.notifySubChange): without it they keep the old permissions.
+	if (st.Op.K == "set" && st.Op.A == "mode" || st.Op.K == "sub" && st.Op.A != "") && !st.Skipped && st.ok() && st.Op.Obo == 0 && st.User >= 0 &&
+		(strings.HasPrefix(st.Route, "grp") || strings.HasPrefix(st.Route, "p2p")) && !strings.HasPrefix(st.Name, "chn") && !o.tainted[st.Route] {
+		self := w.users[st.User].uid
+		a, hadA := pre[subKey{st.Route, self}]
+		b, hasB := now[subKey{st.Route, self}]
+		agree := true
+		if _, attached := o.preAtt[st.Sess][st.Route]; !attached && st.Op.K == "set" {
+			agree = false // served by the store path behind the loaded topic's back (listed C08 finding), announced differently
+		} else if lt := o.preLive[st.Route]; lt != nil {
+			pud, ok := lt.PerUser[self]
+			agree = agree && ok && !pud.deleted && !pud.isChan && pud.modeWant == a.want && pud.modeGiven == a.given
+		} else {
+			agree = false // the topic is loaded by this request: what it announces on loading is another matter
+		}
+		if hadA && hasB && !a.deleted && !b.deleted && agree && (a.want != b.want || a.given != b.given) &&
+			(a.want & a.given).IsPresencer() && (b.want & b.given).IsPresencer() && (b.want & b.given).IsJoiner() {
+			meRoute := self.UserId()
+			for x, ss := range w.sess {
+				if x == st.Sess || ss == nil || ss.isClosed() || ss.user != st.User {
+					continue
+				}
+				if _, on := o.preAtt[x][meRoute]; !on || ss.s.getSub(meRoute) == nil {
+					continue
+				}
+				if _, onTopic := o.preAtt[x][st.Route]; onTopic || ss.s.getSub(st.Route) != nil {
+					continue
+				}
+				told := false
+				for _, f := range st.Frames[x] {
+					if f.Pres != nil && f.Pres.What == "acs" && f.Pres.Topic == "me" && w.routeOfName(f.Pres.Src, st.User) == st.Route {
+						told = true
+					}
+				}
+				if !told {
+					return kit.V("own-permission-change-not-announced", "user %d changed the own subscription on %s from %v/%v to %v/%v with %s (answered %d); the user's session %d, attached to 'me' only, was sent no {pres what=acs} and keeps the old permissions",
+						st.User, st.Route, a.want, a.given, b.want, b.given, st.Req, st.code(), x)
+				}
+				o.features["own-change-announced"] = true
+			}
+		}
+	}
 	acc := map[c05wKey][]*MsgServerPres{}
 	var order []c05wKey
 	sessions := make([]int, 0, len(st.Frames))
